@@ -53,7 +53,7 @@ RULE = ('cases = (package of 2-6 models in per-file or cube format, 6-20 wavelen
         'of the generated inputs')
 REQUIRED_BRANCHES = ['per_file', 'cube', 'dist_independent', 'dist_dependent', 'table_permuted', 'flag1', 'flag4',
                      'staged_convolution', 'staged_table_not_alphabetical', 'staged_first_stage_checked',
-                     'own_grids_same_length', 'own_grids_mixed_lengths', 'other_model_zero_flux', 'other_model_zero_flux_indep', 'distance_unit_kpc', 'distance_unit_other',
+                     'apertures_tabulated_in_AU', 'apertures_tabulated_other_unit', 'own_grids_same_length', 'own_grids_mixed_lengths', 'other_model_zero_flux', 'other_model_zero_flux_indep', 'distance_unit_kpc', 'distance_unit_other',
                      'dist_dependent_unit_not_kpc', 'av0_at_lower_bound', 'av0_at_upper_bound', 'av_range_from_zero',
                      'av_range_negative', 'av_range_positive_start', 'lower_limit_band', 'upper_limit_band', 'plot_only_band',
                      'output_N_all', 'output_format_other', 'select_N1', 'select_format_other', 'listing_several_rows', 'two_sources', 'wav_increasing', 'wav_decreasing', 'unused_band']
@@ -262,7 +262,8 @@ def gen_case(rng, directed=None):
             zero.append([z, f['name']])
     staged = directed.get('staged', rng.random() < 0.35)
     n_first = rng.randint(min(3, nf - 1), nf - 1) if staged else nf     # >= 3 bands in the first stage when possible
-    return dict(fmt=fmt, dep=dep, names=names, wav=wav, wavs=(wavs if hetero != 'none' else None), zero=zero,
+    ap_unit = directed.get('ap_unit', rng.choice(['AU', 'AU', 'pc', 'cm'])) if dep else 'AU'
+    return dict(fmt=fmt, dep=dep, ap_unit=ap_unit, names=names, wav=wav, wavs=(wavs if hetero != 'none' else None), zero=zero,
                 aps=aps, flux=flux, filters=filters, theta=theta,
                 drange=drange_u, dunit=dunit, n_first=n_first, step=step, cols=cols, table_order=table_order, stems=stems,
                 tab_w=tw, tab_chi=chi, av=[av_lo, av_hi], sources=sources,
@@ -301,12 +302,17 @@ DIRECTED = [
     dict(fmt='per_file', dep=True, flags='mixed', nsrc=2, av_lo=-20., nf=5, special=[9, 3], output_format=['F', 30.], select_format=['A', 0]),
     dict(fmt='cube', dep=False, flags='mixed', nsrc=1, av_lo=0., nf=4, special=[3], output_format=['A', 0], select_format=['N', 3]),
     dict(fmt='per_file', dep=False, flags='flag4', nsrc=2, nf=4, special=[2], output_format=['N', 2], select_format=['F', 50.]),
+    dict(fmt='per_file', dep=True, flags='flag1', nsrc=1, ap_unit='pc', special=[], av_lo=0., select_format=['N', 1]),
+    dict(fmt='cube', dep=True, flags='flag4', nsrc=2, ap_unit='cm', special=[], av_lo=0., select_format=['N', 1]),
+    dict(fmt='cube', dep=True, flags='mixed', nsrc=1, ap_unit='pc', staged=True, nf=5, special=[], av_lo=0., select_format=['N', 1]),
 ]
 for _d in DIRECTED[:20]:
     _d.setdefault('special', [])
     _d.setdefault('av_lo', 0.)
     _d.setdefault('output_format', None)
     _d.setdefault('select_format', ['N', 1])
+for _d in DIRECTED[:25]:
+    _d.setdefault('ap_unit', 'AU')
 for _d in DIRECTED[:8]:
     _d.setdefault('staged', False)
 for _d in DIRECTED[:14]:
@@ -323,29 +329,33 @@ def gen_cases(seed, tier):
 # ----------------------------------------------------------------------------- pipeline
 
 def build_package(case, d):
+    """the package, written with sedfitter's own writers (`SED.write`, `SEDCube.write`); the aperture table is
+    stored in the case's unit (AU, pc or cm), every model possibly on its own wavelength grid (per-file format)"""
+    from astropy import units as u
     names = case['names']
+    nm = len(names)
     params_by_name = {n: [case['cols'][c][i] for c in case['cols']] for i, n in enumerate(names)}
-    if case['fmt'] == 'per_file' and case.get('wavs'):
+    ap_unit = u.Unit(case.get('ap_unit') or 'AU')
+    aps_q = None if case['aps'] is None else (np.array(case['aps'], dtype=float) * u.au).to(ap_unit)
+    if case['fmt'] == 'per_file':
+        os.makedirs(os.path.join(d, 'seds'), exist_ok=True)
+        pk.write_conf(d, case['dep'], logd_step=case['step'], version=1)
+        for i, n in enumerate(names):
+            fi = np.array(case['flux'][i], dtype=float)
+            sed = pk.make_sed(n, (case.get('wavs') or [case['wav']] * nm)[i], fi, fi * 0.1, case['aps'])
+            if aps_q is not None:
+                sed.apertures = aps_q
+            sed.write(os.path.join(d, 'seds', (case['stems'] or {}).get(n, n + '_sed') + '.fits'), overwrite=True)
         order = [names[i] for i in case['table_order']]
-        cols = {c: [case['cols'][c][i] for i in case['table_order']] for c in case['cols']}
-        for i, n in enumerate(names):                # every model on its own wavelength grid
-            fi = np.array(case['flux'][i], dtype=float)[np.newaxis]
-            pk.write_sed_package(d, [n], case['wavs'][i], fi, fi * 0.1, apertures_au=case['aps'], table_order=[n],
-                                 params={c: [case['cols'][c][i]] for c in case['cols']},
-                                 aperture_dependent=case['dep'], logd_step=case['step'], file_names=case['stems'])
-        pk.write_parameters(d, order, cols)
-    elif case['fmt'] == 'per_file':
-        flux = np.array(case['flux'], dtype=float)
-        order = [names[i] for i in case['table_order']]
-        cols = {c: [case['cols'][c][i] for i in case['table_order']] for c in case['cols']}
-        pk.write_sed_package(d, names, case['wav'], flux, flux * 0.1, apertures_au=case['aps'], table_order=order,
-                             params=cols, aperture_dependent=case['dep'], logd_step=case['step'],
-                             file_names=case['stems'])
+        pk.write_parameters(d, order, {c: [case['cols'][c][i] for i in case['table_order']] for c in case['cols']})
     else:
         flux = np.array(case['flux'], dtype=float)
-        cols = {c: list(case['cols'][c]) for c in case['cols']}
-        pk.write_cube_package(d, names, case['wav'], flux, flux * 0.1, apertures_au=case['aps'], params=cols,
-                              aperture_dependent=case['dep'], logd_step=case['step'])
+        pk.write_conf(d, case['dep'], logd_step=case['step'], version=2)
+        cube = pk.make_cube(names, case['wav'], flux, flux * 0.1, case['aps'])
+        if aps_q is not None:
+            cube.apertures = aps_q
+        cube.write(os.path.join(d, 'flux.fits'), overwrite=True)
+        pk.write_parameters(d, list(names), {c: list(case['cols'][c]) for c in case['cols']})
     return params_by_name
 
 
@@ -825,6 +835,8 @@ def run_case(case):
             branches.add('select_N1' if sf == ['N', 1] else 'select_format_other')
             if any(len(b[3]) > 1 for b in parse_text(run[-1][1]['text'])[1]):
                 branches.add('listing_several_rows')
+            if case['dep']:
+                branches.add('apertures_tabulated_in_AU' if (case.get('ap_unit') or 'AU') == 'AU' else 'apertures_tabulated_other_unit')
             if len(run) > 1:
                 branches.add('staged_convolution')
                 table_names = [case['names'][i] for i in case['table_order']]
